@@ -63,7 +63,7 @@ pub fn session(rng: &mut Rng) -> Generated {
         let a = rng.range(1, 50);
         let b = rng.range(1, 50);
         let times = rng.range(0, 3);
-        match rng.below(14) {
+        match rng.below(16) {
             0 => {
                 names.push("early-exit");
                 let limit = rng.range(0, 8);
@@ -289,6 +289,33 @@ pub fn session(rng: &mut Rng) -> Generated {
                         t = t,
                         a = a,
                         b = b
+                    ),
+                );
+            }
+            13 | 14 => {
+                // a continuation captured at the bottom of a deep non-tail recursion (large saved
+                // stack), kept in a global and re-entered from later forms
+                names.push("deep-capture-reentry");
+                reentry = true;
+                let depth = rng.range(20, 140);
+                let (def, store, fetch, _) = storage(rng, t);
+                p(
+                    &mut forms,
+                    &format!(
+                        "{def}
+                         (define n{t} 0)
+                         (define (deepcap{t} n) (if (= n 0) (call/cc (lambda (c) {store} 0)) (+ 1 (deepcap{t} (- n 1)))))
+                         (deepcap{t} {depth})
+                         (c-build {b})
+                         (if (< n{t} {times}) (begin (set! n{t} (+ n{t} 1)) ({fetch} (* n{t} 1000))) (list 'stop n{t}))
+                         (if (< n{t} {times}) (begin (set! n{t} (+ n{t} 1)) ({fetch} (* n{t} 1000))) (list 'stop n{t}))",
+                        def = def,
+                        t = t,
+                        store = store,
+                        fetch = fetch,
+                        depth = depth,
+                        b = b % 9,
+                        times = times
                     ),
                 );
             }
